@@ -282,6 +282,8 @@ fn gen_word(rng: &mut Rng) -> String {
             3 => s.push('é'),
             4 => s.push('-'),
             5 => s.push('\u{1F600}'),
+            // code points whose low byte is 0x20 / 0x0A (a byte-wise look at a char would see a space / a newline)
+            6 => s.push(*rng.pick(&['\u{2020}', '\u{0420}', '\u{1F620}', '\u{4E20}', '\u{010A}', '\u{2C20}'])),
             _ => s.push((b'a' + rng.below(26) as u8) as char),
         }
     }
